@@ -43,7 +43,7 @@ __CPROVER_ensures(g_exc == 0)
 UNITS = []
 UNITS.append(Unit('enc.write_int', (ENC + 'write_int', None), contract=WRITE_INT_C, prelude=P,
                   setup=ENC_SETUP + '  unsigned char a_major; __CPROVER_assume(MAJOR_OK(a_major)); unsigned long a_value;\n',
-                  args=['&obj', 'a_value', 'a_major'], props=['C06', 'C10'],
+                  args=['&obj', 'a_value', 'a_major'], props=['C06', 'C10', 'C01', 'C09'],
                   note='all 2^64 values x all fill levels x all major types'))
 
 # ---------------------------------------------------------------- public head-only operations
@@ -98,12 +98,12 @@ HEAD_OPS = [
 for name, sig, V, M in HEAD_OPS:
     uid = 'enc.' + name + ('' if sig is None else '.' + sig.split('(')[1].rstrip(')'))
     UNITS.append(Unit(uid, (ENC + name, sig), contract=head_contract(V, M), prelude=P, setup=PUB_SETUP,
-                      inline=INL, stubs=SINK, replace=['enc.write_int'], props=['C06', 'C10'],
+                      inline=INL, stubs=SINK, replace=['enc.write_int'], props=['C06', 'C10', 'C01', 'C09'],
                       note='all argument values x all fill levels 0..2048 x arbitrary watched output index'))
 
 for name, code in [('write_indef_array_start', '0x9f'), ('write_indef_map_start', '0xbf'), ('write_break', '0xff')]:
     UNITS.append(Unit('enc.' + name, (ENC + name, None), contract=fixed_contract(code), prelude=P, setup=PUB_SETUP,
-                      inline=INL, stubs=SINK, props=['C06', 'C10']))
+                      inline=INL, stubs=SINK, props=['C06', 'C10', 'C01', 'C02', 'C13']))
 
 # ---------------------------------------------------------------- flush_buffer (also checked on its own)
 FLUSH_C = '''
@@ -118,7 +118,7 @@ __CPROVER_ensures(g_W < g_L0 ==> ENC_LBYTE($this) == g_b0)
 __CPROVER_ensures(g_exc == 0)
 '''
 UNITS.append(Unit('enc.flush_buffer', (ENC + 'flush_buffer', None), contract=FLUSH_C, prelude=P, setup=PUB_SETUP,
-                  stubs=SINK, props=['C06', 'C10', 'C13']))
+                  stubs=SINK, props=['C06', 'C10', 'C13', 'C01', 'C02']))
 
 # ---------------------------------------------------------------- write_string (loop contract, unbounded length)
 STR_REQ = '''
@@ -154,7 +154,7 @@ STR_SETUP = PUB_SETUP + '''
 '''
 UNITS.append(Unit('enc.write_string', (ENC + 'write_string', None), contract=WRITE_STRING_C, loops={1: WRITE_STRING_LOOP},
                   prelude=P, setup=STR_SETUP, args=['&obj', 'a_str', 'a_size'], inline=INL, stubs=SINK + ['lib_memcpy'],
-                  props=['C06', 'C10'], timeout=1500, tier='quick', split=True,
+                  props=['C06', 'C10', 'C01', 'C09'], timeout=1500, tier='quick', split=True,
                   bind='g_sL0 = ENC_LLEN($A0); g_sb0 = ENC_LBYTE($A0); g_src = $A1;',
                   note='string of any length < 2^48, any fill level, any number of intermediate flushes; '
                        'loop closed by invariant + lexicographic decreases, no unwinding'))
@@ -178,7 +178,7 @@ STR2_SETUP = PUB_SETUP + '''
 for name, major in [('write_bytestring', '0x40'), ('write_textstring', '0x60')]:
     UNITS.append(Unit('enc.' + name, (ENC + name, 'std::size_t (const unsigned char *, std::size_t)'),
                       contract=string_contract(major), prelude=P, setup=STR2_SETUP, args=['&obj', 'a_str', 'a_size'],
-                      inline=INL, stubs=SINK, replace=['enc.write_int', 'enc.write_string'], props=['C06', 'C10'],
+                      inline=INL, stubs=SINK, replace=['enc.write_int', 'enc.write_string'], props=['C06', 'C10', 'C01', 'C09'],
                       timeout=900))
 
 TRUSTED_BASE = [
